@@ -13,7 +13,7 @@
 (*   - the groups are printed for replay into the hooked `ska lo`, which   *)
 (*     must build the same SNP groups and the same indel groups.           *)
 (***************************************************************************)
-EXTENDS LoGraph, TLC, Json
+EXTENDS LoCall, TLC, Json
 
 CONSTANTS NSamp, MaxLen, WithSnp, EmitReplay
 VARIABLES anc, pos, len, dup, car, snp, phase
@@ -48,16 +48,21 @@ T == BuildTable([s \in 1..NSamp |-> <<SampleSeq(s)>>], [s \in 1..NSamp |-> "s"],
 
 MaxDepth == 4
 GroupJson(G) == SetToSeq({[entry |-> g[1], exit |-> g[2], seqs |-> [i \in 1..Cardinality(g[3]) |-> SetToSeq(g[3])[i][1]]] : g \in G})
+RecJson(R) == SetToSeq({[ref |-> r.ref, alt |-> r.alt, before |-> r.before, after |-> r.after, gts |-> r.gts] : r \in R})
 Traversal ==
    phase = "done" =>
-   LET B == BuiltGroups(T, MaxDepth)
-       FG == FinalGroupsOf(B)
-       FI == FinalIndelsOf(B, K)
+   LET call == LoCall(T, MaxDepth, <<1, 10>>, 2)
+       FG == call.groups
+       FI == call.indels
    IN /\ Assert(\A g \in FI : Cardinality(g[3]) = 2 /\ \E a \in g[3], b \in g[3] : Len(a[1]) # Len(b[1]), "IndelGroupShape")
       /\ Assert(\A g \in FG : Cardinality(g[3]) >= 2, "GroupShape")
+      \* a record never has two equal alleles, and REF is carried by at least as many samples as ALT
+      /\ Assert(\A r \in call.records : r.ref # r.alt, "RecordAllelesDiffer")
+      /\ Assert(\A r \in call.records : Cardinality({s \in 1..NSamp : r.gts[s] = 0}) >= Cardinality({s \in 1..NSamp : r.gts[s] = 1}), "RefIsMajor")
       /\ (EmitReplay =>
             PrintT(<<"REPLAY", ToJson([kind |-> "loentries", k |-> K, samples |-> [s \in 1..NSamp |-> SampleSeq(s)],
                                        entries |-> SetToSeq(EntryNodes(T)), nodes |-> Cardinality(Nodes(T)),
-                                       pre |-> FALSE, lone |-> (snp = <<>>), found |-> (FI # {}),
-                                       groups |-> GroupJson(FG), indels |-> GroupJson(FI)])>>))
+                                       pre |-> FALSE, lone |-> (snp = <<>>), found |-> (call.records # {}),
+                                       groups |-> GroupJson(FG), indels |-> GroupJson(FI),
+                                       columns |-> call.columns, records |-> RecJson(call.records), panic |-> call.panic])>>))
 =============================================================================
